@@ -318,8 +318,17 @@ impl Indexable for ast::If {
     type Output = ();
     fn index(&self, ctx: &mut IndexCtx) -> Option<Self::Output> {
         self.condition()?.index(ctx);
-        self.then_body()?.index(ctx);
-        self.else_body()?.index(ctx);
+        // each branch is a scope of its own: a defvar inside it ends with it
+        if let Some(body) = self.then_body() {
+            ctx.scopes.push(ScopeKind::Block);
+            body.index(ctx);
+            ctx.scopes.pop();
+        }
+        if let Some(body) = self.else_body() {
+            ctx.scopes.push(ScopeKind::Block);
+            body.index(ctx);
+            ctx.scopes.pop();
+        }
         None
     }
 }
@@ -328,7 +337,12 @@ impl Indexable for ast::Let {
     type Output = ();
     fn index(&self, ctx: &mut IndexCtx) -> Option<Self::Output> {
         self.let_list()?.index(ctx);
-        self.statement_list()?.index(ctx);
+        // the body is a scope of its own: a defvar inside it ends with it
+        ctx.scopes.push(ScopeKind::Block);
+        if let Some(body) = self.statement_list() {
+            body.index(ctx);
+        }
+        ctx.scopes.pop();
         None
     }
 }
